@@ -11,7 +11,7 @@
   NOT modelled, tied to the reference only by the differential (harness/c08): the tree node algorithms of art/ and rbt/
   (lookup, insertion, node growth, prefix split, rebalancing, iterator seek), the arena's block arithmetic.
 -/
-import ClientGoVerif.Proofs.VLogRun
+import ClientGoVerif.Proofs.VLogView
 namespace CGV.Props.C08
 open CGV CGV.MemBuf
 
@@ -65,34 +65,23 @@ theorem release_keeps (m : VLog) (h : Nat) (op : Op)
       · rw [if_neg h1]; exact ⟨rfl, rfl, rfl, rfl⟩
   exact hs _ hrel.1 hrel.2.1 hrel.2.2.1 hrel.2.2.2
 
-/-- Cleanup restores the values: open a stage, run ANY calls that do not release / clean up that stage itself (nested
-    stages, checkpoints and reverts inside it are allowed), then clean the stage up — every key reads as it did when the
-    stage was opened. (Flags are deliberately not rolled back: `flags_survive_iff_persistent`.) -/
+/-- Cleanup restores the view: open a stage, run ANY calls that do not release / clean up that stage itself (writes incl.
+    same-length overwrites, deletes, flag-only updates, nested stages that are released or cleaned up, checkpoints and
+    reverts inside the stage, rejected oversized writes, limit changes), then clean the stage up.  Then for every key
+    * `Get` answers what it answered when the stage was opened, and
+    * `GetFlags` (which also tells whether the key is in the buffer) is given by the documented flag rule `flagsAfterUndo`:
+      flags are not rolled back; a key that got its only values inside the stage keeps exactly its persistent flags and
+      leaves the buffer when it has none.
+    Together with `len_size_exact` this fixes the whole view (keys, values, flags, Len, Size) after the cleanup. -/
 theorem cleanup_restores (m : VLog) (hi : Inv m) (body : List Op)
     (hk : KeepsStage (m.stages.length + 1) (abs (m.step .staging).1) body)
     (htop : ((m.step .staging).1.run body).1.stages.length = m.stages.length + 1) (k : Bytes) :
-    ((((m.step .staging).1.run body).1.step (.cleanup (m.stages.length + 1))).1.step (.get k)).2 = (m.step (.get k)).2 := by
-  obtain ⟨_, hi1⟩ := step_refines hi .staging
-  obtain ⟨hr, hi2⟩ := run_refines hi1 body
-  have hi3 := (step_refines hi2 (.cleanup (m.stages.length + 1))).2
-  have hf1 := stage_frame m
-  have hf2 := frame_run body _ hf1 (respects_of_keepsStage body _ hf1 hk)
-  have hrun : ((abs (m.step .staging).1).run body).1 = abs ((m.step .staging).1.run body).1 := by rw [hr]
-  rw [hrun] at hf2
-  generalize ((m.step .staging).1.run body).1 = m2 at *
-  obtain ⟨ext, hm, _⟩ := hf2.marks
-  have hm' : m2.stages = m.stages ++ [m.log.length] ++ ext := hm
-  have hext : ext = [] := by
-    have hl := htop
-    rw [hm'] at hl
-    simp only [List.length_append, List.length_cons, List.length_nil] at hl
-    exact List.eq_nil_of_length_eq_zero (by omega)
-  have hst : m2.stages = m.stages ++ [m.log.length] := by rw [hm', hext]; simp
-  apply get_eq_of_vers m _ hi hi3
-  rw [cleanup_top_refines m2 hi2 m.stages m.log.length hst]
-  have : ({ (abs m2).undoTo m.log.length with marks := m.stages } : Spec).vers k = ((abs m2).undoTo m.log.length).vers k := rfl
-  rw [this, vers_undoTo_abs]
-  exact hf2.vers k
+    ((((m.step .staging).1.run body).1.step (.cleanup (m.stages.length + 1))).1.step (.get k)).2 = (m.step (.get k)).2 ∧
+    ((((m.step .staging).1.run body).1.step (.cleanup (m.stages.length + 1))).1.step (.getFlags k)).2
+      = flagsAfterUndo (m.step (.get k)).2 (((m.step .staging).1.run body).1.step (.get k)).2
+          (((m.step .staging).1.run body).1.step (.getFlags k)).2 := by
+  obtain ⟨hi2, hi3, h3, hfr⟩ := cleanup_setup m hi body hk htop
+  exact ⟨undo_values_model m _ _ hi hi3 _ _ k (hfr k) h3, undo_flags_model m _ _ hi hi2 hi3 _ _ k (hfr k) h3⟩
 
 /-- Snapshot reads ignore staged data: once the first stage is open, whatever is written, staged, released, cleaned up or
     reverted above it, the snapshot getter answers what `Get` answered when the stage was opened. -/
@@ -227,60 +216,57 @@ theorem limits_exact (m : VLog) (k : Bytes) (v : Option Bytes) (ops : List Nat) 
 
 /-! ## checkpoints -/
 
-/-- The general form: for ANY mark `m.checkpoint` (whether or not it was handed out by `Checkpoint()`), if no version that
-    existed at the mark is overwritten in place (`Respects`: every `set` is `SafeSwap`), nothing pops below it and nothing
-    reverts below it, reverting to the mark restores every value.  `revert_restores_view` discharges `Respects` from the
-    remembered checkpoint. -/
-theorem revert_restores_view_partial (m : VLog) (hi : Inv m) (body : List Op)
-    (hr : Respects m.checkpoint m.stages (abs m) body)
-    (hok : ((m.run body).1.step (.revert m.checkpoint)).2 = .ok) (k : Bytes) :
-    (((m.run body).1.step (.revert m.checkpoint)).1.step (.get k)).2 = (m.step (.get k)).2 := by
-  obtain ⟨hrun, hi2⟩ := run_refines hi body
-  obtain ⟨_, hi3⟩ := step_refines hi2 (.revert m.checkpoint)
-  have hf1 : Frame m.checkpoint m.stages (fun k => (abs m).vers k) (abs m) :=
-    ⟨⟨[], by simp [abs], by simp⟩, Nat.le_refl _, fun k => oldPart_self _ _ (vers_abs_le m k)⟩
-  have hf2 := frame_run body _ hf1 hr
-  have hrun' : ((abs m).run body).1 = abs (m.run body).1 := by rw [hrun]
-  rw [hrun'] at hf2
-  have e3 := (step_refines hi3 (.get k)).1
-  have e0 := (step_refines hi (.get k)).1
-  have e3' : (((m.run body).1.step (.revert m.checkpoint)).1.step (.get k)).2
-      = ((abs ((m.run body).1.step (.revert m.checkpoint)).1).step (.get k)).2 := by rw [e3]
-  have e0' : (m.step (.get k)).2 = ((abs m).step (.get k)).2 := by rw [e0]
-  rw [e3', e0', get_out, get_out]
-  obtain ⟨hst, _, hlast⟩ := revert_ok_state (m.run body).1 m.checkpoint hok
-  have hcond : m.checkpoint ≤ (m.run body).1.log.length := hf2.clock
-  have hle : ∀ c ∈ (m.run body).1.stages, c ≤ m.checkpoint := by
-    intro c hc'
-    cases hl : (m.run body).1.stages.getLast? with
-    | none =>
-      have : (m.run body).1.stages = [] := by simpa using hl
-      rw [this] at hc'; simp at hc'
-    | some x =>
-      have hx : x ≤ m.checkpoint := hlast x hl
-      have := sorted_le_last _ hi2.stagesSorted x hl c hc'
-      omega
-  obtain ⟨ea, _⟩ := revertTo_refines hi2 m.checkpoint hcond (m.run body).1.stages hle hi2.stagesSorted
-  have ea' : abs ((m.run body).1.revertTo m.checkpoint) = (abs (m.run body).1).undoTo m.checkpoint := ea
-  rw [hst, ea', vers_undoTo_abs, hf2.vers k]
-
-/-- FULL-STRENGTH statement for checkpoints: take a checkpoint (`Checkpoint()`), run any calls that do not pop the stages
-    that were open at the checkpoint and do not revert below it, revert to the checkpoint — every key reads as it did at
-    the checkpoint.  In the unpatched tree this was false (a same-length overwrite after the checkpoint was applied in
-    place and not undone, DESIGN §6 S10: `set k aa; checkpoint; set k bb; revert; get k = bb`); with `lastCheckpoint`
-    (the newest checkpoint handed out guards the in-place swap in ART.trySwapValue / RBT.setValue) it holds. -/
+/-- RevertToCheckpoint restores the view (the statement of the property text, at full strength): take a checkpoint with
+    `Checkpoint()`, run ANY calls that do not pop the stages that were open at the checkpoint and do not revert below it
+    (in particular: same-length overwrites — the case that was NOT undone before the `lastCheckpoint` repair, DESIGN §6 S10 —,
+    different-length overwrites, deletes, flag-only updates, new nested stages that are released or cleaned up, later
+    checkpoints and reverts to them, writes rejected by the key / entry / buffer limits, limit changes), then revert to the
+    checkpoint.  Then for every key `Get` answers what it answered at the checkpoint and `GetFlags` follows the documented
+    flag rule (`flagsAfterUndo`, as for Cleanup).  With `len_size_exact`: the whole view. -/
 theorem revert_restores_view (m0 : VLog) (hi0 : Inv m0) (body : List Op)
     (hk : KeepsStage (m0.step .checkpoint).1.stages.length (abs (m0.step .checkpoint).1) body)
     (hn : NoRevertBelow (m0.step .checkpoint).1.checkpoint body)
     (hok : (((m0.step .checkpoint).1.run body).1.step (.revert (m0.step .checkpoint).1.checkpoint)).2 = .ok) (k : Bytes) :
     ((((m0.step .checkpoint).1.run body).1.step (.revert (m0.step .checkpoint).1.checkpoint)).1.step (.get k)).2
-      = ((m0.step .checkpoint).1.step (.get k)).2 := by
+      = ((m0.step .checkpoint).1.step (.get k)).2 ∧
+    ((((m0.step .checkpoint).1.run body).1.step (.revert (m0.step .checkpoint).1.checkpoint)).1.step (.getFlags k)).2
+      = flagsAfterUndo ((m0.step .checkpoint).1.step (.get k)).2 (((m0.step .checkpoint).1.run body).1.step (.get k)).2
+          (((m0.step .checkpoint).1.run body).1.step (.getFlags k)).2 := by
   have hi := (step_refines hi0 .checkpoint).2
-  have hg : (m0.step .checkpoint).1.checkpoint ≤ (abs (m0.step .checkpoint).1).guard := Nat.le_refl _
+  have hr := respects_after_checkpoint m0 body hk hn
   generalize (m0.step .checkpoint).1 = m at *
-  have hf1 : Frame m.checkpoint m.stages (fun k => (abs m).vers k) (abs m) :=
-    ⟨⟨[], by simp [abs], by simp⟩, Nat.le_refl _, fun k => oldPart_self _ _ (vers_abs_le m k)⟩
-  exact revert_restores_view_partial m hi body (respects_of_guard body _ hf1 hg hk hn) hok k
+  obtain ⟨hi2, hi3, h3, hfr⟩ := revert_setup m hi body hr hok
+  exact ⟨undo_values_model m _ _ hi hi3 _ _ k (hfr k) h3, undo_flags_model m _ _ hi hi2 hi3 _ _ k (hfr k) h3⟩
+
+/-- The same for an arbitrary log position used as a mark (`m.checkpoint` read off WITHOUT calling `Checkpoint()`, so nothing
+    remembers it).  The only hypothesis this needs beyond `revert_restores_view` is the `SafeSwap` part of `Respects`: no `set`
+    in the body overwrites in place a version that is not newer than the mark.  `revert_restores_view` has no such hypothesis
+    because `Checkpoint()` remembers the mark (`lastCheckpoint`) and `respects_after_checkpoint` derives `SafeSwap` from it;
+    this general form is what that derivation plugs into (it is a lemma about the mechanism, not a weaker property). -/
+theorem revert_to_mark_restores (m : VLog) (hi : Inv m) (body : List Op)
+    (hr : Respects m.checkpoint m.stages (abs m) body)
+    (hok : ((m.run body).1.step (.revert m.checkpoint)).2 = .ok) (k : Bytes) :
+    (((m.run body).1.step (.revert m.checkpoint)).1.step (.get k)).2 = (m.step (.get k)).2 ∧
+    (((m.run body).1.step (.revert m.checkpoint)).1.step (.getFlags k)).2
+      = flagsAfterUndo (m.step (.get k)).2 ((m.run body).1.step (.get k)).2 ((m.run body).1.step (.getFlags k)).2 := by
+  obtain ⟨hi2, hi3, h3, hfr⟩ := revert_setup m hi body hr hok
+  exact ⟨undo_values_model m _ _ hi hi3 _ _ k (hfr k) h3, undo_flags_model m _ _ hi hi2 hi3 _ _ k (hfr k) h3⟩
+
+/-- Len() and Size() are functions of the view, in every reachable state: Len = number of keys the flag-including iterator
+    yields, Size = Σ (key length + value length) over them (a flags-only key counts its key, a tombstone counts 0). -/
+theorem len_size_exact (ops : List Op) :
+    ∃ view, ((VLog.init.run ops).1.step (.iter [] [] false true)).2 = .items view ∧
+      ((VLog.init.run ops).1.step .len).2 = .num view.length ∧
+      ((VLog.init.run ops).1.step .size).2 = .num (Spec.sumInt itemSize view) :=
+  ⟨_, len_size_of_view (run_refines inv_init ops).2⟩
+
+/-- the S10 scenario and friends, computed on the mechanism model: in-place overwrite, nested stage, flag-only write and a
+    write rejected by the entry limit between a checkpoint and the revert -/
+example :
+    (VLog.init.run [.set [0x6b] [0xaa] [], .checkpoint, .set [0x6b] [0xbb] [], .staging, .set [0x6c] [1] [], .upd [0x6d] [4],
+        .release 1, .setLimits 2 100, .set [0x6b] [1, 2, 3] [], .revert 1, .get [0x6b], .get [0x6c], .getFlags [0x6d]]).2
+      = [.ok, .num 1, .ok, .num 1, .ok, .ok, .ok, .ok, .err .entryTooLarge, .ok, .val [0xaa], .notFound, .flags 2] := by
+  decide
 
 /-! ## non-vacuity of the hypotheses -/
 
